@@ -47,13 +47,13 @@ EPS = 1e-7  # anything this close to a decision boundary is skipped and counted
 DISC = 1 - math.cos(math.pi / 64) + 1e-6
 
 TIERS = {
-    "quick": dict(k_tri=4, k_cl=3, k_seg=3, k_band=3, k_drv=200, n_maps=8, depth=3, sweep_stride=16),
+    "quick": dict(k_tri=4, k_cl=3, k_seg=3, k_band=3, k_drv=200, n_maps=8, depth=3, sweep_stride=24),
     "thorough": dict(k_tri=10, k_cl=5, k_seg=8, k_band=8, k_drv=2000, n_maps=None, depth=4, sweep_stride=1),
 }
 # the medium maps added to the quick tier (intersections, sidewalks, shoulders)
 QUICK_EXTRA = ("LGSVL/borregasave.xodr", "CARLA/Town02.xodr", "CARLA/Town01.xodr")
 N_VARIANT_MAPS = 6
-CACHE_MAP = "LGSVL/cubetown.xodr"
+CACHE_MAP = "opendrive.org/CulDeSac.xodr"
 SWEEP_MAP = "LGSVL/Straight2LaneSame.xodr"
 
 
@@ -313,6 +313,7 @@ def check_links(net, acc):
     isLS = lambda x: isinstance(x, R.LaneSection)
     isLane = lambda x: isinstance(x, R.Lane)
 
+    conn_ids = set(map(id, net.connectingRoads))
     # ---- roads / groups / lanes / sections ----
     for road in net.allRoads:
         ru = road.uid
@@ -398,7 +399,15 @@ def check_links(net, acc):
                         for i2 in (w._predecessor, w._successor):
                             if isinstance(i2, R.Intersection) and any(m.connectingLane.road is conn for m in i2.maneuvers) and any(r is plain for r in i2.roads):
                                 ok = True
-                C("linkage", "road-link-reciprocal", ok, lambda: f"{ru}.{attr} = {v.uid}, but {v.uid} links to ({uid(v._predecessor)}, {uid(v._successor)}) and no intersection relates them")
+                if not ok and id(road) not in conn_ids and id(v) not in conn_ids:
+                    # two ordinary roads, link declared on one side only in the map:
+                    # transcribed as is, reported, not judged (see one_sided below)
+                    acc.cnt["one_sided_road_to_road_links"] += 1
+                    acc.stats.setdefault("one_sided_links", [])
+                    if len(acc.stats["one_sided_links"]) < 12:
+                        acc.stats["one_sided_links"].append(f"{ru}.{attr} = {v.uid}, no link back")
+                else:
+                    C("linkage", "road-link-reciprocal", ok, lambda: f"{ru}.{attr} = {v.uid}, but {v.uid} links to ({uid(v._predecessor)}, {uid(v._successor)}) and no intersection relates them")
 
         # group links agree with lane links
         for g in road.laneGroups:
@@ -1142,13 +1151,15 @@ def lookup_answers(net, probes, guard=False):
 
 def net_diff(ref, key, net):
     """First difference between a network and the reference for `key`, or None."""
-    try:
-        dd = fp_diff(ref["fps"][key], fingerprint(net))
-    except Exception as e:
-        return ("structure-raises", f"inspecting the returned network raised {type(e).__name__}: {str(e)[:160]}")
-    if dd is None:
-        a = answers_diff(ref["answers"][key], lookup_answers(net, ref["probes"][key], guard=True), ref["probes"][key])
-        dd = ("lookup", a) if a else None
+    with warnings.catch_warnings():
+        warnings.simplefilter("ignore")  # damaged caches produce NaN geometry etc.
+        try:
+            dd = fp_diff(ref["fps"][key], fingerprint(net))
+        except Exception as e:
+            return ("structure-raises", f"inspecting the returned network raised {type(e).__name__}: {str(e)[:160]}")
+        if dd is None:
+            a = answers_diff(ref["answers"][key], lookup_answers(net, ref["probes"][key], guard=True), ref["probes"][key])
+            dd = ("lookup", a) if a else None
     return dd
 
 
@@ -1309,7 +1320,10 @@ class Rig:
                     self.report(f"cache:valid-cache-ignored:{cls}", f"{op}: a cache written for exactly this map and options exists, yet the parser ran {parsed}x", trace)
                 else:
                     self.report(f"cache:parser-ran-{parsed}-times:{cls}", f"{op}: parser ran {parsed} times", trace)
-            dd = net_diff(self.ref, refkey, net)
+            if parsed:  # parsed afresh in this process: deterministic, structure suffices
+                dd = fp_diff(self.ref["fps"][refkey], fingerprint(net))
+            else:
+                dd = net_diff(self.ref, refkey, net)
             if dd is not None and cls == "soft-corrupt" and parsed == 0:
                 self.report("cache:corrupt-payload-silently-used", f"{op}: a cache with a damaged payload byte was loaded without any error and the returned network differs from a fresh parse ({dd[0]}): {dd[1]}", trace)
             elif dd is not None:
@@ -1523,6 +1537,11 @@ def graph_item_rt(item):
             res.update(acc.out(), parse_s=time.time() - t0, total_s=time.time() - t0)
             return res
         t1 = time.time()
+        if not net.elements or not hasattr(net.drivableRegion, "polygons"):
+            # (only deletion variants) nothing drivable left: nothing to judge
+            res["unbuilt"] = "EmptyNetwork"
+            res.update(acc.out(), parse_s=t1 - t0, total_s=time.time() - t0)
+            return res
         check_links(net, acc)
         check_containment(net, acc)
         probes = make_probes(net, P)
